@@ -678,9 +678,6 @@ Proof.
     intro Hr. eapply IH; eauto.
 Qed.
 
-Definition takes_nested (m : mkind) : bool :=
-  match m with MTopReset | MReset | MElemWithout _ => false | _ => true end.
-
 Definition method_pre (m : mkind) : list op := filter is_oarg (method_prog m None).
 
 Lemma method_prog_shape m nested :
